@@ -43,7 +43,7 @@ The reach counter c18.groups.mp.runs_inner_group_closes_on_full_buffer counts Mp
 inside a still open outer group while the document buffer already holds >= batchsize documents (the situation in which a
 writer that hands the buffer over too early tears an outer group apart).
 
-Case numbering: every 13th case of a shard is a "groups" case (own random stream ctx.rng(idx, "groups")); the other cases
+Case numbering: every 16th case of a shard is a "groups" case (own random stream ctx.rng(idx, "groups")); the other cases
 keep the index - hence the random stream, and the "case_idx" shown in their witnesses - they had before that kind was
 interleaved (60 / 300 per shard), the replay index recorded by the framework is the position in the interleaved sequence.
 """
@@ -67,7 +67,7 @@ RULE = ("case kinds: 'product' = one seeded history (1..4 transactions; deletes 
         "mp writers get limitmb in {default, 1e-5, 2e-4, 2e-3} (tiny posting pools that spill sorted runs); 'bw' = a step-wise "
         "BufferedWriter program against a dict model (sequential, threaded, timer variants); 'async_multi' = 2..4 AsyncWriters "
         "queued behind one lock holder (AsyncWriter behind a held lock with explicit sequencing is also one of the product "
-        "front-ends); 'groups' (every 13th case of a shard) = an add-only history of 1..2 (thorough 1..3) transactions of 12..70 (thorough "
+        "front-ends); 'groups' (every 16th case of a shard) = an add-only history of 1..2 (thorough 1..3) transactions of 12..70 (thorough "
         "..120) hierarchical documents each: outermost groups = pre-order trees with strict levels, 1..3 nested group contexts "
         "(group() context manager, start_group()/end_group() calls or mixed), root fan-out 0..8, inner fan-out 0..4, childless "
         "inner documents wrapped in a group of one half of the time, one top-level item in six an ungrouped document; run through "
@@ -136,14 +136,15 @@ FLOORS = {"c18.configs": 150, "c18.dump.compares": 200, "c18.fe.seg": 30, "c18.f
           "c18.bw.thread_runs": 12, "c18.bw.commit_overlapped_add": 8, "c18.bw.thread_deletes_updates": 30,
           "c18.bw.timer_flush_observed": 6, "c18.asyncmulti.runs": 6, "c18.asyncmulti.dump_checks": 6,
           "c18.asyncmulti.distinct_lock_orders": 4, "c18.asyncmulti.lock_won_out_of_creation_order": 3,
-          "c18.cases.groups": 6, "c18.groups.configs": 14, "c18.groups.fe.mp": 7, "c18.groups.fe.seg": 2,
-          "c18.groups.fe.buffered": 2, "c18.groups.fe.async": 1, "c18.groups.mp.merged": 3, "c18.groups.mp.multisegment": 3,
-          "c18.groups.mp.runs_inner_group_closes_on_full_buffer": 3,
-          "c18.groups.mp.runs_inner_group_closes_on_exactly_full_buffer": 1, "c18.groups.adjacency_checks": 25,
-          "c18.groups.adjacency_checks.multisegment": 3, "c18.groups.outer_groups_checked": 105,
-          "c18.groups.nested_compares": 200, "c18.groups.nested_compares.nonempty": 175}
+          "c18.cases.groups": 5, "c18.groups.configs": 12, "c18.groups.fe.mp": 6, "c18.groups.fe.seg": 2,
+          "c18.groups.fe.buffered": 1, "c18.groups.fe.async": 1, "c18.groups.mp.merged": 2, "c18.groups.mp.multisegment": 3,
+          "c18.groups.mp.runs_inner_group_closes_on_full_buffer": 4,
+          "c18.groups.mp.runs_inner_group_closes_on_exactly_full_buffer": 2, "c18.groups.adjacency_checks": 20,
+          "c18.groups.adjacency_checks.multisegment": 2, "c18.groups.outer_groups_checked": 60,
+          "c18.groups.nested_compares": 160, "c18.groups.nested_compares.nonempty": 140}
 
 MP_TIMEOUT_S = 60
+GROUPS_EVERY = 16         # every 16th case of a shard is a 'groups' case
 
 
 # ----------------------------------------------------------------------
@@ -772,7 +773,7 @@ def gen_group_history(rng, tier):
     parent key)} (level None for a note), depth = number of nested group contexts."""
     o = gen_opts(rng)
     o["hier"] = True
-    ntx = rng.choice([1, 1, 1, 2, 2] if tier == "quick" else [1, 1, 2, 2, 3])
+    ntx = rng.choice([1, 1, 1, 2] if tier == "quick" else [1, 1, 2, 2, 3])
     depth = rng.choice([1, 2, 2, 3, 3])
     style = rng.choice(["ctx", "calls", "mixed"])
     per_tx = rng.randint(12, 70) if tier == "quick" else rng.randint(12, 120)
@@ -831,12 +832,13 @@ def describe_group_history(h):
     """Compact witness: brackets and key:kind per transaction, plus the documents' field values."""
     txs = []
     for tx in h["txs"]:
-        parts = []
+        parts, closers = [], []
         for op in tx["ops"]:
-            if op[0] == "sg":
+            if op[0] == "sg":               # ( ) = with writer.group():   [ ] = start_group() .. end_group()
                 parts.append("(" if op[1] == "ctx" else "[")
+                closers.append(")" if op[1] == "ctx" else "]")
             elif op[0] == "eg":
-                parts.append(")")
+                parts.append(closers.pop())
             else:
                 parts.append("%s:%s" % (op[1]["key"], op[1]["kind"]))
         txs.append({"commit": tx["commit"], "ops": " ".join(parts)})
@@ -1167,7 +1169,7 @@ def case_product(ctx, idx, rng, mp, groups=False):
     if groups:
         # the first in-process front-end rotates with the case's position (every shard meets all three early), more are random
         inproc = ["seg", "buffered", "async"]
-        kinds = ["mp"] * rng.choice([1, 1, 2]) + [inproc[(idx // ctx.nshards // 13 + idx % ctx.nshards) % 3]]
+        kinds = ["mp"] * rng.choice([1, 1, 2]) + [inproc[(idx // ctx.nshards // GROUPS_EVERY + idx % ctx.nshards) % 3]]
         kinds += [rng.choice(inproc) for _ in range(ctx.pick(0, 1))]
         cfgs = [gen_group_cfg(rng, k, ntx, len(h["live"])) for k in kinds]
     else:
@@ -1798,17 +1800,17 @@ def run(ctx):
     from vf import model
     model.check_analysis()
     _install_thread_hook()
-    for idx in ctx.cases(quick=65, thorough=325):
-        # every 13th case of a shard is a 'groups' case with its own random stream; the other cases keep the numbering
+    for idx in ctx.cases(quick=64, thorough=320):
+        # every 16th case of a shard is a 'groups' case with its own random stream; the other cases keep the numbering
         # (hence the random streams) they had before that kind was interleaved: 60 / 300 per shard
         pos, shard = divmod(idx, ctx.nshards)
-        if pos % 13 == 12:
+        if pos % GROUPS_EVERY == GROUPS_EVERY - 1:
             ctx.reseed_global(idx)
             ctx.count("c18.cases.groups")
             case_product(ctx, idx, ctx.rng(idx, "groups"), mp=True, groups=True)
             report_stray_thread_errors(ctx, idx)
             continue
-        idx = (pos - pos // 13) * ctx.nshards + shard
+        idx = (pos - pos // GROUPS_EVERY) * ctx.nshards + shard
         rng = ctx.rng(idx)
         ctx.reseed_global(idx)
         k = idx % 12
